@@ -7,6 +7,7 @@ from props import c01
 MODULE = "ColaVerif.Properties.C05"
 CALLS = ["info"]
 CORPUS = os.path.join(common.ROOT, "harness", "corpus", "c05.jsonl")
+ROUTINE_CALLS = {"groups": 0, "raised": 0, "classes": {}}
 
 
 def run(ctx):
@@ -24,7 +25,15 @@ def run(ctx):
                 continue
             common.violation(ctx, {"stream": "routine outputs", "problem": p,
                                    "why": f"{p['routine']} returned an operator annotated {p['annotation']} whose dense matrix does not have that property"})
-        return {"routine_outputs_checked": checked, "routine_output_samples": samples, "routine_notes": ctx.notes[:5]}
+        if ROUTINE_CALLS["groups"] == 0 or ROUTINE_CALLS["raised"] > 0.02 * ROUTINE_CALLS["groups"]:
+            common.violation(ctx, {"broken": "routine-output stream of C05: too many routine calls raised, their annotations were not checked",
+                                   "routine_calls": dict(ROUTINE_CALLS)}, no_input=True)
+        return {"routine_outputs_checked": checked, "routine_output_samples": samples, "routine_notes": ctx.notes[:5],
+                "routine_calls": {"groups": ROUTINE_CALLS["groups"], "raised": ROUTINE_CALLS["raised"], "raised_classes": ROUTINE_CALLS["classes"],
+                                  "limit": "more than 2 % raising ends the run with a VIOLATION"},
+                "routine_compare": "numerical: atol 1e-7 (Hermitian / PSD scaled by max|M|) on float64 / complex128 LAPACK results",
+                "identity_assumption": "Python `is` is modelled by structural equality (Op.sameObj); build.Builder shares equal "
+                                       "sub-expressions so that the two coincide on the generated inputs"}
     c01.run(ctx, calls=CALLS, module=MODULE, corpus=CORPUS, gen_kw={"ann_p": 0.5}, extra=extra)
 
 
@@ -71,6 +80,7 @@ def routine_stream(ctx):
             samples.append({"routine": where, "shape": [r, c], "annotations": sorted(a.__name__ for a in op.annotations)})
 
     N = 12 if not ctx.thorough else 80
+    ROUTINE_CALLS.update({"groups": 0, "raised": 0, "classes": {}})
     for t in range(N):
         n = rng.randint(2, 7)
         cplx = rng.random() < 0.4
@@ -83,38 +93,64 @@ def routine_stream(ctx):
         Pop = cola.PSD(cola.ops.Dense(H @ H.conj().T))
         Gop = cola.ops.Dense(G)
         v = nprng.standard_normal(n) + (1j * nprng.standard_normal(n) if cplx else 0)
-        try:
+        def r_lanczos():
             Q, T, _ = lanczos(Hop, v.astype(H.dtype), max_iters=k, tol=1e-12)
             truth(Q, "lanczos.Q", case)
             truth(T, "lanczos.T", case)
+
+        def r_arnoldi():
             Q, Hh, _ = arnoldi(Gop, v.astype(G.dtype), max_iters=k, tol=1e-12)
-            truth(Q[:, :k] if False else Q, "arnoldi.Q", case)
+            truth(Q, "arnoldi.Q", case)
+
+        def r_eig_alg():
             for alg, Aop, nm in [(cola.linalg.Eigh(), Hop, "eig.Eigh"), (cola.linalg.Eig(), Gop, "eig.Eig"),
                                  (Lanczos(max_iters=n, tol=1e-12), Hop, "eig.Lanczos"),
                                  (Arnoldi(max_iters=n, tol=1e-12), Gop, "eig.Arnoldi")]:
                 vals, vecs = cola.linalg.eig(Aop, k, "LM", alg)
                 truth(vecs, nm, case)
-            d = nprng.standard_normal(n)
+
+        d = nprng.standard_normal(n)
+
+        def r_eig_struct():
             for Aop, nm in [(cola.ops.Diagonal(d), "eig.Diagonal"), (cola.ops.Identity((n, n), np.float64), "eig.Identity"),
                             (cola.ops.Triangular(np.triu(nprng.standard_normal((n, n))) + np.diag(np.arange(1., n + 1)), lower=False), "eig.Triangular")]:
                 vals, vecs = cola.linalg.eig(Aop, k, "LM")
                 truth(vecs, nm, case)
-            m2 = rng.randint(2, 6)
-            R = nprng.standard_normal((n, m2)) + (1j * nprng.standard_normal((n, m2)) if cplx else 0)
-            kk = rng.randint(1, min(n, m2))
+
+        m2 = rng.randint(2, 6)
+        R = nprng.standard_normal((n, m2)) + (1j * nprng.standard_normal((n, m2)) if cplx else 0)
+        kk = rng.randint(1, min(n, m2))
+
+        def r_svd_alg():
             for alg, nm in [(svdmod.DenseSVD(), "svd.Dense"), (Lanczos(max_iters=min(n, m2), tol=1e-12), "svd.Lanczos")]:
                 U, S, V = svdmod.svd(cola.ops.Dense(R), kk, "LM", alg)
                 truth(U, nm + ".U", case)
                 truth(V, nm + ".V", case)
+
+        def r_svd_struct():
             for Aop, nm in [(cola.ops.Diagonal(np.abs(d) + 1), "svd.Diagonal"), (cola.ops.Identity((n, n), np.float64), "svd.Identity")]:
                 U, S, V = svdmod.svd(Aop, kk, "LM")
                 truth(U, nm + ".U", case)
                 truth(V, nm + ".V", case)
+
+        def r_unary():
             for f, nm in [(cola.linalg.exp, "exp"), (cola.linalg.sqrt, "sqrt")]:
                 F = f(Pop if nm == "sqrt" else Hop, Lanczos(max_iters=n, tol=1e-12))
                 truth(F, "unary." + nm + ".Lanczos", case)
+
+        def r_inv_unitary():
             Ui = cola.linalg.inv(cola.Unitary(cola.ops.Dense(np.linalg.qr(B)[0])))
             truth(Ui, "inv.Unitary", case)
-        except Exception as ex:  # noqa: BLE001
-            ctx.notes.append(f"routine stream case {case}: {type(ex).__name__}: {str(ex)[:120]}")
+
+        # an exception is an observation: a routine group that raises has checked nothing, it is counted (with the class)
+        # and does not abandon the other groups of the iteration; the caller fails the run when more than 2 % raised
+        for grp in (r_lanczos, r_arnoldi, r_eig_alg, r_eig_struct, r_svd_alg, r_svd_struct, r_unary, r_inv_unitary):
+            ROUTINE_CALLS["groups"] += 1
+            try:
+                grp()
+            except Exception as ex:  # noqa: BLE001
+                ROUTINE_CALLS["raised"] += 1
+                ROUTINE_CALLS["classes"][f"{grp.__name__[2:]}: {type(ex).__name__}"] = \
+                    ROUTINE_CALLS["classes"].get(f"{grp.__name__[2:]}: {type(ex).__name__}", 0) + 1
+                ctx.notes.append(f"routine stream case {case} {grp.__name__[2:]}: {type(ex).__name__}: {str(ex)[:120]}")
     return checked, problems, samples
